@@ -195,6 +195,34 @@ theorem settle_pays_recorded {s s' : Settle} {amt : Nat} (hinv : s.recorded ≤ 
     | none => simp [hv] at h
     | some v => simp [hv] at h; omega
 
+/-- the whole instruction: a successful call moves at most the recorded amount and at most the
+escrow, zeroes the record and conserves tokens; with a non-zero record it needs the order's own
+builder accounts. -/
+theorem settleIx_bounds {s s' : Settle} {p : Passed} {amt : Nat} (h : settleIx s p = .ok (s', amt)) :
+    amt ≤ s.recorded ∧ amt ≤ s.escrow ∧ s'.recorded = 0 ∧ s'.escrow + amt = s.escrow ∧
+      s'.vault = s.vault + amt ∧ (s.recorded ≠ 0 → p = .builder) := by
+  unfold settleIx at h
+  by_cases h0 : s.recorded = 0
+  · simp [h0] at h; obtain ⟨rfl, rfl⟩ := h; simp [h0]
+  · simp only [h0, if_false] at h
+    cases p with
+    | none => simp at h
+    | otherUser => simp at h
+    | builder =>
+      simp only at h
+      cases hs : settle s with
+      | none => simp [hs] at h
+      | some r =>
+        simp [hs] at h; subst h
+        obtain ⟨a, b, c, d, e⟩ := settle_bounds hs
+        exact ⟨a, b, c, d, e, fun _ => rfl⟩
+
+/-- repeating the instruction (with any accounts) is a no-op that moves nothing. -/
+theorem settleIx_idempotent {s s' : Settle} {p q : Passed} {amt : Nat} (h : settleIx s p = .ok (s', amt)) :
+    settleIx s' q = .ok (s', 0) := by
+  obtain ⟨_, _, h0, _, _, _⟩ := settleIx_bounds h
+  simp [settleIx, h0]
+
 /-! ### Histories: charges, decreases and (repeated) settlements on one order -/
 
 inductive Op where
@@ -294,6 +322,8 @@ example : chargeOnIncrement (10 ^ 20) 50 (100000 * 10 ^ 20) (10 ^ 17) (2 * 10 ^ 
 example : decreaseRecord (10 ^ 20) (100000 * 10 ^ 20) (10 ^ 17) (2 * 10 ^ 20) 7 3 = .ok 10 := by rfl
 example : settle ⟨42, 40, 1⟩ = some (⟨0, 0, 41⟩, 40) := by decide
 example : settle ⟨0, 40, 1⟩ = some (⟨0, 40, 1⟩, 0) := by decide
+example : settleIx ⟨42, 40, 1⟩ .builder = .ok (⟨0, 0, 41⟩, 40) := by rfl
+example : settleIx ⟨42, 40, 1⟩ .none = .error .notProvided := by rfl
 example : (run (10 ^ 20) ⟨0, 0, 0⟩ [.inc 60 (100000 * 10 ^ 20) (10 ^ 17) (2 * 10 ^ 20),
     .dec (100000 * 10 ^ 20) (10 ^ 17) (2 * 10 ^ 20) 7, .settle, .settle]) = ⟨0, 0, 57⟩ := by decide
 
